@@ -34,7 +34,8 @@ var c05Prelude = []string{
 	"r := 0",
 }
 
-var c05Vals = []string{"a", "m", "s", "b", "f", "e", "u", "im", "imm", "fl", "ch", "t", "n", "1", "0", "-1", "\"x\"", "[]", "{}", "len", "inarr", "9223372036854775807"}
+var c05Vals = []string{"a", "m", "s", "b", "f", "e", "u", "im", "imm", "fl", "ch", "t", "n", "1", "0", "-1", "\"x\"", "[]", "{}", "len", "inarr", "9223372036854775807",
+	"-9223372036854775807", "(-9223372036854775807 - 1)", "(fl * 1e308 * 10.0)", "(0.0 / (fl - fl))", "\"\"", "\"%d %s %v\"", "bytes(0)", "'\\x00'", "time(0)", "[a, [a, [a]]]", "{k: {k: {k: m}}}", "error(e)", "immutable([m, a])", "2147483648", "-2147483649", "1.5e300"}
 var c05BinOps = []string{"+", "-", "*", "/", "%", "&", "|", "^", "<<", ">>", "<", ">", "<=", ">=", "&^", "==", "!=", "&&", "||"}
 
 type c05Idiom struct {
@@ -291,6 +292,20 @@ func c05Idioms() []c05Idiom {
 			"len2 := len",
 			"r = len2(a) + len2",
 			"r = len2()")},
+		{name: "sliceOfSlices", lines: func(r *plan.Rng) []string {
+			return [][]string{
+				{"x1 := a[1:]", "x2 := x1[1:]", "x3 := append(x2, 9, 9, 9)", "x1[1] = x3", "r = string(x1[0:1])", "r = x2[5]"},
+				{"q := bytes(\"abcdef\")", "q2 := q[2:4]", "q3 := q2 + q[5:] + q2[1:]", "r = q3[10]", "r = string(q3[1:1])", "r = q2[-1:9]"},
+				{"w := \"héllo\"", "w2 := w[1:3]", "r = w2[0] + w2[1] + w2[2]", "r = char(w2[5])", "r = w[:1] + w[9:]"},
+			}[r.Intn(3)]
+		}},
+		{name: "conversionEdges", lines: func(r *plan.Rng) []string {
+			return []string{"r = " + []string{
+				"int(fl * 1e308 * 10.0)", "int(0.0 / (fl - fl))", "char(int(fl * 1e18))", "string(char(1114111)) + string(char(55296))", "bytes(\"\") + bytes(0)", "int(\"9223372036854775808\")", "int(\"-9223372036854775809\")",
+				"float(\"1e999\")", "float(\"nan\") + 1", "time(9223372036854775807)", "time(-9223372036854775807) + 1", "string(time(253402300800))", "int(time(0)) / int(time(0))", "bool(error(undefined))", "char(\"ab\")", "char(\"\")",
+				"format(\"%c\", 1114112)", "format(\"%q\", -1)", "format(\"%d\", fl)", "format(\"%s\", [e, [e]])", "format(\"%v\", {a: {b: {c: [1, 2, {d: e}]}}})", "format(\"%5.2f|%-10s|%+d|%x|%o|%b\", fl, s, n, n, n, n)",
+			}[r.Intn(22)]}
+		}},
 		{name: "ternaryAndLogic", lines: func(r *plan.Rng) []string {
 			return []string{"r = " + pickVal(r) + " ? " + pickVal(r) + "() : " + pickVal(r) + "[0]", "r = (u || e) && f(1, 2)"}
 		}},
